@@ -50,10 +50,19 @@ inductive SetupOut where
   | unsupported     -- value shape outside the documented ones (not judged)
   deriving DecidableEq, Repr
 
-/-- `fit_param, fit_type = key.split(':')` -/
+/-- `str.split(':')` on the characters of a key -/
+def splitColon : List Char → List (List Char)
+  | [] => [[]]
+  | c :: cs =>
+    if c = ':' then [] :: splitColon cs
+    else match splitColon cs with
+      | h :: t => (c :: h) :: t
+      | [] => [[c]]
+
+/-- `fit_param, fit_type = key.split(':')`; `none` = the `ValueError` of the tuple unpacking -/
 def splitKey (k : String) : Option (String × String) :=
-  match k.splitOn ":" with
-  | [a, b] => some (a, b)
+  match splitColon k.toList with
+  | [a, b] => some (String.ofList a, String.ofList b)
   | _ => none
 
 /-- all keys of a section split; `none` = the `ValueError` of the tuple unpacking -/
